@@ -101,7 +101,7 @@ def _trace_history_job(a):
             if ev[0] == "set":
                 L.set_point(ev[1])
             elif ev[0] == "run":
-                L.run()
+                L.run(ev[1] if len(ev) > 1 else "solve_first")
                 ran = L.pt
             elif ev[0] == "totals" and ran == L.pt:
                 L.totals()
